@@ -22,8 +22,11 @@ pub mod ir;
 pub mod lattice;
 pub mod meta;
 pub mod misc;
+pub mod python;
 pub mod schema;
 pub mod serial;
+#[cfg(feature = "threads")]
+pub mod threads;
 pub mod world;
 
 pub struct Report {
